@@ -24,6 +24,7 @@ def one_at_a_time(h):
 
 
 def run(c):
+    pe.run_design(c, histories=False)
     K = 3 if c.thorough else 2
     sound, contract = [], []
     nh = 0
